@@ -4,6 +4,7 @@
 package csvfrag
 
 import (
+	"errors"
 	"fmt"
 	"os"
 	"sort"
@@ -202,6 +203,8 @@ func drawPlan(t *rapid.T, doc []byte, delim byte) plan {
 	return p
 }
 
+var errAbandoned = errors.New("csvfrag: the reader of an earlier call failed")
+
 func confFuncs(c *gen.CSVCase) []csv.ConfigFunc {
 	ff := []csv.ConfigFunc{csv.Delimiter(c.Delim), csv.EmptyNull(c.EmptyNull), csv.IgnoreEmptyLines(c.IgnoreEmptyLines)}
 	if c.UseHeaders {
@@ -291,6 +294,22 @@ func runC12(t *rapid.T) {
 	p := drawPlan(t, c.Doc, c.Delim)
 	core.Eval()
 
+	// now and then the process has an abandoned read behind it: the same kind
+	// of document (same delimiter and options), cut short by a failing reader.
+	// What that call left behind must not matter to the reads that follow.
+	if len(c.Doc) > 2 && rapid.IntRange(0, 7).Draw(t, "abandonedread") == 0 {
+		at := rapid.IntRange(1, len(c.Doc)-1).Draw(t, "abandonedat")
+		func() {
+			defer func() { _ = recover() }()
+			rd := &simio.SimReader{Doc: c.Doc, Plan: simio.ReadPlan{Fault: &simio.ReadFault{At: at, Kind: "opaque", Err: errAbandoned}}, MaxReads: 16*len(c.Doc) + 1024}
+			ff := confFuncs(c)
+			if other := []byte{'x', '0', ' ', ';', '\t'}[rapid.IntRange(0, 4).Draw(t, "abandoneddelim")]; other != c.Delim && rapid.Bool().Draw(t, "abandonedother") {
+				ff = append(ff, csv.Delimiter(other)) // ... or read with another delimiter, one that occurs in cells
+			}
+			_ = qframe.ReadCSV(rd, ff...)
+		}()
+		core.Probe("read-after-an-abandoned-read")
+	}
 	base := read(c, plan{Style: "whole"})
 	if base.panicky != "" {
 		core.Violation(t, "C12:panic:baseline", "ReadCSV panicked on a single-read delivery: "+base.panicky, trace{Case: c, Plan: plan{Style: "whole"}})
